@@ -31,6 +31,16 @@ def ops(rng, tier, floats_only=False):
             out.append(f"dextra CowA {gen.hexb(b)} {m % 256}")
         for _ in range(n):
             out.append(f"dextra CowA {gen.hexb(gen.rand_bytes(rng, rng.randint(0, 40)))} {rng.randint(0, 255)}")
+    if not floats_only:
+        # fields of a one-valued type: the documented encoding is spelled out (#X=), they are ordinary mandatory fields
+        for i in (0, 7, 23, 24, 255):
+            hd = gen.head(0, i).hex()
+            for t in ("UnitA", "UnitPA"):
+                out.append(f"dextra {t} {i} #X=82{hd}80")
+            for t in ("UnitM", "UnitPM"):
+                out.append(f"dextra {t} {i} #X=a200{hd}0180")
+            out.append(f"dextra UnitE {i} #X=82018280{hd}")
+        out.append("dextra UnitE ping #X=82008180")
     for a in F32:
         for b in rng.sample(F64, 4) + ["7ff8000000000001", "fff8000000000000", "3ff0000000000000"]:
             for t in ("FltA", "FltM", "FltE"):
@@ -49,6 +59,9 @@ def judge(op, impl, model, spec):
     w = [x for x in op.split(" ") if not x.startswith("#")]
     iw = impl.split(" ")
     if len(iw) != 4 or not iw[1].startswith("len=") or not iw[2].startswith("dec=") or not iw[3].startswith("pos="):
+        return "violation"
+    x = [a[3:] for a in op.split(" ") if a.startswith("#X=")]
+    if x and iw[0] != x[0]:
         return "violation"
     nbytes = 0 if iw[0] == "-" else len(iw[0]) // 2
     want = ",".join(w[2:]) if w[1] != "CowA" else f"{w[2]},{w[3]}"
